@@ -4,6 +4,7 @@ import re
 from framework import CaseResult, text_points, points_text
 from props.textcommon import run_text_tool, model_inputs, out_lines, input_lines
 
+GEN_FILES = ["GenText"]
 RULE = ("texts of 0..8 lines drawn from {numbered (1-9 then digits, up to 25 digits), digits-only, starting with 0, blank, leading blanks, "
         "plain, non-ASCII}; 1..3 inputs as files (LF/CRLF/CR, with/without final newline) and/or stdin; start/increment in 1..10^4 "
         "(boundary values first), width 0..12; options given or left to their defaults. signature = sorted feature set "
